@@ -54,7 +54,7 @@ def run_job(env, spec):
         for t in traces:
             if not t.path.ok:
                 continue
-            ct = O.canon_trace(env, t)
+            ct = O.canon_trace(env, t, with_result=spec.get("trace_results", True))
             # a symbolic coefficient is value dependence by construction
             if "sym:" in repr(ct):
                 job.res["errors"].append("%s: symbolic coefficient in a linear combination (value-dependent circuit)" % job.name)
@@ -75,7 +75,8 @@ def run_job(env, spec):
                 "constraints differ" if a[2] != b[2] else "result wire expressions differ")
             job.finding("c06", "%d distinct constraint systems; %s between inputs %s [%s] and %s [%s]" % (
                 len(keys), what, i1, gtag(c1), i2, gtag(c2)),
-                dict(kind="c06", runs=[dict(cfg=cfg_json(c1), inputs=i1), dict(cfg=cfg_json(c2), inputs=i2)]))
+                dict(kind="c06", runs=[dict(cfg=cfg_json(c1), inputs=i1), dict(cfg=cfg_json(c2), inputs=i2)],
+                     trace_results=spec.get("trace_results", True)))
         else:
             job.inconclusive("two trace classes but no model for a representative")
     job.sample(dict(classes=len(keys), completed_paths=sum(len(v) for v in classes.values()),
